@@ -11,6 +11,7 @@ import JulianVerif.Lemmas.ShapedInst
 import JulianVerif.Lemmas.Grammar
 import JulianVerif.Lemmas.GenLib
 import JulianVerif.Lemmas.GenText
+import JulianVerif.Lemmas.GenScan
 set_option linter.unusedSimpArgs false
 namespace JV.C13
 open JV Spec
@@ -195,6 +196,21 @@ theorem generated_parser (c : Calendar) (hc : WF c) (s : List Char) :
     ∧ Gen.toHand (Gen.dateParserParseDayInYear s) = parseDayInYear s :=
   ⟨Gen.calendarParseDate_eq c hc s, Gen.dateParserParseInt_eq s, Gen.dateParserParseUint_eq s,
     Gen.dateParserScanChar_eq s, Gen.dateParserParseDayInYear_eq s⟩
+
+/-- inner.rs `scan` **as generated** — `char_indices().find(..)`, `len()`, `split_at(..)` with byte offsets,
+generic in an `FnMut` predicate — never panics (the offset it passes to `split_at` is a character boundary,
+whatever multi-byte characters the text holds and whatever the predicate answers) and is `Str.scanSt`, the
+function the generated parser steps above are built on -/
+theorem generated_scan {σ : Type} (s : List Char) (p : σ → Char → Bool × σ) (st : σ) :
+    Gen.scanG s p st = some (Str.scanSt p st s) :=
+  Gen.scanG_eq s p st
+
+/-- … on text with multi-byte characters: "12é3" is split after two bytes, "ééé" (all accepted) at its end -/
+theorem generated_scan_examples :
+    (Gen.scanG "12é3".toList (fun (_ : Unit) c => (isAsciiDigit c, ())) ()).map (·.1) = some ("12".toList, "é3".toList)
+    ∧ (Gen.scanG "ééé".toList (fun (_ : Unit) _ => (true, ())) ()).map (·.1) = some ("ééé".toList, [])
+    ∧ Str.splitAt "é3".toList 1 = none := by
+  decide +kernel
 
 /-- the premises are met and the generated parser computes: 1582-10-15 in the 1582 calendar, a skipped
 date, a lone sign -/
